@@ -321,9 +321,48 @@ def cpOKList : List ES.Node → Bool
   | n :: ns => cpOK n && cpOKList ns
 end
 
-/-- All group names of the pattern are different (the parser rejects some duplicates; the round-trip
-theorem is stated for patterns without any). -/
-def distinctNames (a : ES.Node) : Bool := decide ((ES.namedGroups a 0).map (·.1)).Nodup
+/-! ## Duplicate group names
+
+Two groups may have the same name only if they are in different alternatives of a common disjunction
+(ES2025 "duplicate named groups"; the parser's `check_duplicate_conflicts`, the specification's early
+error of `ES.groupNames`).  `Lower.toIR` does not check this, the parser does. -/
+
+mutual
+/-- The names of the named groups of a node, in pattern order (with repetitions). -/
+def gnames : ES.Node → List (List Nat)
+  | .group _ nm n => (match nm with | some x => [x] | none => []) ++ gnames n
+  | .cat ns => gnamesList ns
+  | .alt ns => gnamesList ns
+  | .nc n => gnames n
+  | .mod _ _ n => gnames n
+  | .look _ _ n => gnames n
+  | .quant _ _ _ n => gnames n
+  | _ => []
+def gnamesList : List ES.Node → List (List Nat)
+  | [] => []
+  | n :: ns => gnames n ++ gnamesList ns
+end
+
+mutual
+/-- No two groups with the same name might both participate. -/
+def noDup : ES.Node → Bool
+  | .group _ nm n => noDup n && (match nm with | some x => !(gnames n).contains x | none => true)
+  | .cat ns => noDupSeq ns
+  | .alt ns => noDupAll ns
+  | .nc n => noDup n
+  | .mod _ _ n => noDup n
+  | .look _ _ n => noDup n
+  | .quant _ _ _ n => noDup n
+  | _ => true
+/-- children of a sequence: pairwise disjoint names -/
+def noDupSeq : List ES.Node → Bool
+  | [] => true
+  | n :: ns => noDup n && noDupSeq ns && (gnames n).all (fun x => !(gnamesList ns).contains x)
+/-- children of a disjunction: no condition across alternatives -/
+def noDupAll : List ES.Node → Bool
+  | [] => true
+  | n :: ns => noDup n && noDupAll ns
+end
 
 /-! ## Line protocol -/
 
